@@ -126,7 +126,7 @@ ALL_MENU = (
     "item:err", "item:unset", "item:c",
     "shape:T", "shape:D", "shape:nest", "shape:wrap1",
     "ins:raise", "ins:probe", "ins:res", "ins:mkitem", "ins:mkchild", "ins:sync", "ins:iv", "ins:yempty", "ins:ynone",
-    "wrap:try", "wrap:A", "wrap:N", "wrap:S0", "wrap:S1", "wrap:P0", "wrap:Xp", "wrap:Xr",
+    "wrap:try", "wrap:A", "wrap:N", "wrap:S0", "wrap:S1", "wrap:P0", "wrap:Xp", "wrap:Xr", "wrap:Xq",
     "flush:raise", "flush:raiseB", "flush:new", "flush:setraise", "flush:nested",
     "leaf:dd", "ins:ddirty", "item:errf", "ins:caught", "leaf:cw",
 )
@@ -271,7 +271,7 @@ def _block_variants(stmts, ctx, allow_shared, made_before):
     if "wrap:try" in menu:
         wraps.append(lambda body: ("try", body, ()))
         wraps.append(lambda body: ("try", body, (("y", IA),)))
-    for ck in ("A", "N", "S0", "S1", "P0", "Xp", "Xr"):
+    for ck in ("A", "N", "S0", "S1", "P0", "Xp", "Xr", "Xq"):
         if "wrap:" + ck in menu:
             wraps.append(lambda body, ck=ck: ("with", ck, body))
     if wraps:
